@@ -6,7 +6,8 @@ Content-Type (whitelisted types, text/*, with parameters, upper-case, non-compre
 Content-Encoding preset, Vary preset (single / multi-token / two lines), explicit Content-Length
 (right or wrong); chunks sized around the 1024-byte threshold (1023/1024/1025 exactly, tiny, empty, up
 to 20000); request Accept-Encoding in {absent, gzip, "gzip, deflate", deflate, identity,
-"br;q=1, gzip;q=0.5", x-gzip}; GET/HEAD; HTTP/1.0 (no keep-alive) and 1.1; a second request is pipelined.
+"br;q=1, gzip;q=0.5", x-gzip, GZIP, gzip;q=0, *, *;q=0, "identity, *;q=0", "br, *;q=0.1",
+"br;q=1.0, *;q=0.1", "deflate, *;q=0.0"}; GET/HEAD; HTTP/1.0 (no keep-alive) and 1.1; a second request is pipelined.
 
 Oracle: the response is read with the strict reader vlib/httpref.py and decoded according to its own
 Content-Encoding with zlib (vlib/httpref.gunzip_strict: complete members, CRC/length trailer verified).
@@ -25,7 +26,10 @@ What the handler wrote comes from the program model vlib/respmodel.py.  Clauses:
 Whether compression *is* applied is not asserted (the statement only restricts when it may be); the
 labels `gzip_applied` / `gzip_not_applied` show that both happen.
 
-EITHER classes: programs tripping the Content-Length guard (`cl_guard`: with gzip the length is rewritten,
+EITHER classes: Accept-Encoding that does not mention gzip but has a `*` element with q > 0 (RFC 9110 lets
+`*` cover gzip, the statement only speaks of "mentions gzip"; the current tree does not compress) -- with
+`*;q=0` or no `*` compression is a violation; `gzip;q=0` *mentions* gzip, so the statement allows what the
+tree does (it compresses); programs tripping the Content-Length guard (`cl_guard`: with gzip the length is rewritten,
 without it the connection is torn down), body bytes pushed under 204/304 (C02's domain, `c02_domain`).
 
 Finding on the current tree (open, known_findings.d/C29.json + findings_inbox/C29-gzip-bodyless-flush.md):
@@ -33,7 +37,7 @@ Finding on the current tree (open, known_findings.d/C29.json + findings_inbox/C2
   bodyless response (304: connection dropped without response; 204: bytes behind the header block).
 With the proposed patch applied to a scratch copy the check is quiet with zero excluded cases.
 
-Sensitivity (quick tier, seed 1, each mutant applied alone to a scratch copy of tornado/web.py; 9 of 10 caught):
+Sensitivity (quick tier, seed 1, each mutant applied alone to a scratch copy of tornado/web.py; 10 of 11 caught):
   transform_first_chunk: Content-Length kept on a non-final first chunk   -> C29.not_well_framed
   transform_chunk: GzipFile.flush() omitted on non-final chunks           -> C29.flush_not_a_sync_point
   transform_first_chunk: Vary overwritten instead of extended             -> C29.vary_lost_program_token
@@ -43,6 +47,9 @@ Sensitivity (quick tier, seed 1, each mutant applied alone to a scratch copy of 
   _compressible_type: always True                                         -> C29.gzip_for_non_compressible_type
   transform_chunk: close() replaced by flush() (no gzip trailer)          -> C29.gzip_body_undecodable
   transform_first_chunk: Vary not set when absent                         -> C29.vary_without_accept_encoding
+  __init__: `"gzip" in AE or "*" in AE` without q-value handling (body gzip-encoded for `*;q=0`,
+      `identity, *;q=0`, `deflate, *;q=0.0`)                                -> C29.gzip_without_accept_encoding_gzip
+      (found by independent mutation testing and MISSED while no Accept-Encoding value contained `*`)
   transform_first_chunk: `>= MIN_LENGTH` -> `>`   NOT caught: equivalent under the statement, which only says
       when compression *may* be applied, not that a 1024-byte body must be compressed (planned DESIGN mutant).
 """
@@ -57,7 +64,7 @@ PROPERTY = "C29"
 READY = True
 RULE = (
     "Hypothesis: program of <=8 ops (header presets, then write/flush ops, optional finish, optional trailing "
-    "ops) x Accept-Encoding(7) x GET/HEAD x HTTP/1.0|1.1; chunk sizes concentrated on 0..3, 1023..1025 and "
+    "ops) x Accept-Encoding(15, incl. wildcard and q-value forms) x GET/HEAD x HTTP/1.0|1.1; chunk sizes concentrated on 0..3, 1023..1025 and "
     "large; non-trivial = a flush before finish with gzip active, or total size within +-1 of 1024, or an "
     "explicit Content-Length, or HEAD with gzip; distinct = SHA-1 of the case"
 )
@@ -75,7 +82,35 @@ WHITELIST = {
     "application/javascript", "application/x-javascript", "application/xml", "application/atom+xml",
     "application/json", "application/xhtml+xml", "image/svg+xml",
 }
-ACCEPT_ENCODINGS = [None, "gzip", "gzip, deflate", "deflate", "identity", "br;q=1, gzip;q=0.5", "x-gzip"]
+ACCEPT_ENCODINGS = [None, "gzip", "gzip, deflate", "deflate", "identity", "br;q=1, gzip;q=0.5", "x-gzip",
+                    # wildcard / q-value forms: gzip is never mentioned in the first six
+                    "*", "*;q=0", "identity, *;q=0", "br, *;q=0.1", "br;q=1.0, *;q=0.1", "deflate, *;q=0.0",
+                    "GZIP", "gzip;q=0"]
+
+
+def gzip_permission(ae):
+    """'mentioned' when the header mentions gzip (the statement's condition; includes x-gzip, GZIP and even
+    gzip;q=0), 'wildcard' when it does not but a `*` element with q > 0 covers gzip (EITHER: RFC 9110
+    12.5.3 allows it, the statement does not mention it), else 'no' (absent, other codings, `*;q=0`)."""
+    if ae is None:
+        return "no"
+    if "gzip" in ae.lower():
+        return "mentioned"
+    for element in ae.split(","):
+        parts = [x.strip() for x in element.split(";")]
+        if parts[0] != "*":
+            continue
+        q = 1.0
+        for prm in parts[1:]:
+            name, _, value = prm.partition("=")
+            if name.strip().lower() == "q":
+                try:
+                    q = float(value.strip())
+                except ValueError:
+                    q = 1.0
+        if q > 0:
+            return "wildcard"
+    return "no"
 CONTENT_TYPES = sorted(WHITELIST) + [
     "text/plain", "text/css; charset=utf-8", "text/x-anything", "TEXT/HTML", "Application/JSON",
     "application/json; charset=UTF-8", "application/json ;q", "application/octet-stream", "image/png",
@@ -121,7 +156,7 @@ case_s = st.fixed_dictionaries(
     {
         "method": st.sampled_from(["GET", "GET", "HEAD"]),
         "version": st.sampled_from(["1.1", "1.1", "1.0"]),
-        "ae": st.sampled_from(ACCEPT_ENCODINGS + ["gzip", "gzip"]),
+        "ae": st.sampled_from(ACCEPT_ENCODINGS + ["gzip", "gzip", "gzip", "gzip"]),
         "prog": prog_s,
     }
 )
@@ -177,8 +212,9 @@ def run_case(ctx, case):
     method, version, ae, prog = case["method"], case["version"], case["ae"], case["prog"]
     exp = rm.predict(prog, method, None)
     wire, closed = run(prog, method, version, ae)
-    ae_gzip = ae is not None and "gzip" in ae.lower()
-    labels = {"method_" + method, "http" + version, "ae_" + str(ae), "outcome_" + exp.outcome}
+    permission = gzip_permission(ae)
+    ae_gzip = permission != "no"  # gzip may be applied ("wildcard": EITHER, see gzip_permission)
+    labels = {"method_" + method, "http" + version, "ae_" + str(ae), "outcome_" + exp.outcome, "gzip_permission_" + permission}
     nontrivial = False
     info = {"case": case, "wire": wire[:400], "wire_len": len(wire), "closed": closed, "model_status": exp.status}
     total = len(exp.body)
@@ -253,7 +289,9 @@ def run_case(ctx, case):
     elif ce:
         ctx.check(ce == ["gzip"], "C29.unexpected_content_encoding", dict(info, got=ce))
         gz = True
-        ctx.check(ae_gzip, "C29.gzip_without_accept_encoding_gzip", info)
+        ctx.check(ae_gzip, "C29.gzip_without_accept_encoding_gzip", dict(info, permission=permission))
+        if permission == "wildcard":
+            labels.add("either_gzip_by_wildcard")
         ctx.check(compressible(ctype), "C29.gzip_for_non_compressible_type", dict(info, ctype=ctype))
     else:
         gz = False
